@@ -17,8 +17,35 @@ use std::sync::atomic::{AtomicU64, Ordering};
 /// Exact model value of a weight: integers as sign + magnitude, floats as f64 (f32 widened exactly).
 #[derive(Clone, Copy, Debug, PartialEq, Serialize, Deserialize)]
 pub enum M {
-    I { neg: bool, mag: u128 },
-    F(f64),
+    I {
+        neg: bool,
+        #[serde(with = "u128_str")]
+        mag: u128,
+    },
+    F(#[serde(with = "f64_bits")] f64),
+}
+
+/// u128 magnitudes as decimal strings (serde_json has no 128-bit numbers without arbitrary_precision)
+mod u128_str {
+    use serde::{Deserialize, Deserializer, Serializer};
+    pub fn serialize<S: Serializer>(v: &u128, s: S) -> Result<S::Ok, S::Error> {
+        s.serialize_str(&v.to_string())
+    }
+    pub fn deserialize<'de, D: Deserializer<'de>>(d: D) -> Result<u128, D::Error> {
+        let s = String::deserialize(d)?;
+        s.parse::<u128>().map_err(serde::de::Error::custom)
+    }
+}
+/// floats as bit patterns (NaN / inf safe)
+mod f64_bits {
+    use serde::{Deserialize, Deserializer, Serializer};
+    pub fn serialize<S: Serializer>(v: &f64, s: S) -> Result<S::Ok, S::Error> {
+        s.serialize_str(&format!("{:#018x}", v.to_bits()))
+    }
+    pub fn deserialize<'de, D: Deserializer<'de>>(d: D) -> Result<f64, D::Error> {
+        let s = String::deserialize(d)?;
+        u64::from_str_radix(s.trim_start_matches("0x"), 16).map(f64::from_bits).map_err(serde::de::Error::custom)
+    }
 }
 
 impl M {
@@ -273,6 +300,9 @@ pub struct AliasCase {
 }
 
 /// structural check of one vector: error spec, weights() reconstruction. Returns (symptom, message).
+/// C04 judges only the constructor outcome (weights() is C08's clause)
+pub static SKIP_WEIGHTS_RECONSTRUCTION: std::sync::atomic::AtomicBool = std::sync::atomic::AtomicBool::new(false);
+
 pub fn alias_structural<W: Wt>(ws: &[M]) -> Option<(String, String)> {
     let input: Vec<W> = ws.iter().map(|&m| W::from_m(m)).collect();
     let spec = alias_spec::<W>(ws);
@@ -294,6 +324,9 @@ pub fn alias_structural<W: Wt>(ws: &[M]) -> Option<(String, String)> {
         Ok(d) => {
             if !spec.is_empty() {
                 return Some(("accepted_invalid".into(), format!("WeightedAliasIndex<{}>::new({}) = Ok but {:?} holds", W::NAME, show(ws), spec)));
+            }
+            if SKIP_WEIGHTS_RECONSTRUCTION.load(Ordering::Relaxed) {
+                return None;
             }
             let back = match catch(|| d.weights()) {
                 Ok(b) => b,
@@ -690,6 +723,26 @@ where
     } else {
         alias_sampling::<W>(ctx, 6, 160_000);
     }
+}
+
+/// C04's share: WeightedAliasIndex::new and WeightedTreeIndex::new/push/update (error spec, unchanged-on-error, accessors)
+pub fn run_c04_part(ctx: &Ctx) {
+    SKIP_WEIGHTS_RECONSTRUCTION.store(true, Ordering::Relaxed);
+    alias_exhaustive::<u8>(ctx, 4);
+    alias_exhaustive::<i8>(ctx, 4);
+    alias_exhaustive::<u64>(ctx, 3);
+    alias_exhaustive::<f32>(ctx, 3);
+    alias_exhaustive::<f64>(ctx, 3);
+    tree_exhaustive::<u8>(ctx, 2);
+    tree_exhaustive::<i8>(ctx, 2);
+    let cases = if ctx.thorough() { 20_000 } else { 1_500 };
+    tree_random::<u8>(ctx, cases, 120);
+    tree_random::<i32>(ctx, cases, 120);
+    tree_random::<u128>(ctx, cases, 120);
+    tree_random::<f64>(ctx, cases, 120);
+    alias_random_structural::<u16>(ctx, cases);
+    alias_random_structural::<i64>(ctx, cases);
+    alias_random_structural::<f64>(ctx, cases);
 }
 
 pub fn run_c08(ctx: &Ctx) {
@@ -1207,11 +1260,37 @@ fn gen_history<W: Wt>(r: &mut BaseRng, target_len: usize, mutations: usize) -> V
     };
     let n0 = target_len;
     let mut ops = vec![Op::New((0..n0).map(|_| rw(r, n0 + mutations)).collect())];
+    // a fraction of the histories contains operations that must be rejected (overflowing or invalid weights):
+    // a rejected operation must leave the weights in force untouched
+    let with_rejects = mutations > 0 && r.random_range(0..3) == 0;
+    let huge = |r: &mut BaseRng| -> M {
+        if W::IS_FLOAT {
+            if r.random::<bool>() { M::F(f64::NAN) } else { M::F(-1.0) }
+        } else if W::SIGNED && r.random_range(0..3) == 0 {
+            M::int(-1)
+        } else {
+            M::I { neg: false, mag: W::imax() - (r.random_range(0..3u32) as u128) }
+        }
+    };
     for _ in 0..mutations {
+        if with_rejects && r.random_range(0..4) == 0 {
+            if r.random::<bool>() {
+                ops.push(Op::Update(r.random_range(0..(n0.max(1))), huge(r)));
+            } else {
+                ops.push(Op::Push(huge(r)));
+            }
+            continue;
+        }
         match r.random_range(0..6) {
             0 => ops.push(Op::Push(rw(r, n0 + mutations))),
             1 => ops.push(Op::Pop),
             _ => ops.push(Op::Update(r.random_range(0..(n0.max(1))), rw(r, n0 + mutations))),
+        }
+    }
+    // float trees: some histories end by setting every weight to zero (rounding residue in the total)
+    if W::IS_FLOAT && mutations > 0 && r.random_range(0..5) == 0 {
+        for i in 0..(n0 + mutations) {
+            ops.push(Op::Update(i, M::F(0.0)));
         }
     }
     ops
@@ -1232,6 +1311,8 @@ fn tree_sample_check<W: Wt>(tree: &WeightedTreeIndex<W>, model: &[M], rng: &mut 
         Err(p) => {
             if valid {
                 Some(("panic".into(), format!("WeightedTreeIndex<{}> {} is_valid() but try_sample panicked: {}", W::NAME, show(model), p.lines().next().unwrap_or(""))))
+            } else if model.is_empty() || model.iter().all(|m| m.is_zero()) {
+                Some(("panic_when_all_zero".into(), format!("WeightedTreeIndex<{}> {} (empty / all weights zero): try_sample panicked instead of returning InsufficientNonZero: {}", W::NAME, show(model), p.lines().next().unwrap_or(""))))
             } else {
                 None
             }
@@ -1311,6 +1392,7 @@ where
             }
         }
         let mut ev = 0u64;
+        let mut seen_roots = std::collections::HashSet::new();
         for pos in 0..2u64 {
             for &w in &words {
                 let mut rng = VRng::from_env(seed);
@@ -1318,7 +1400,13 @@ where
                 rng.begin_call();
                 ev += 1;
                 if let Some((sym, msg)) = tree_sample_check::<W>(&tree, &model, &mut rng) {
-                    viol(ctx, "WeightedTreeIndex", W::NAME, &sym, crate::streams::word_class(w), msg, json!({"kind": "tree_sample", "tree_sample": TreeSampleCase { wt: W::NAME.into(), ops: ops.clone(), pos, word: w, seed }}));
+                    // one representative per (symptom, word class) and state; long histories are not stored in full
+                    if seen_roots.insert((sym.clone(), crate::streams::word_class(w))) && ops.len() <= 400 {
+                        viol(ctx, "WeightedTreeIndex", W::NAME, &sym, crate::streams::word_class(w), msg, json!({"kind": "tree_sample", "tree_sample": TreeSampleCase { wt: W::NAME.into(), ops: ops.clone(), pos, word: w, seed }}));
+                    } else if seen_roots.len() == 1 && ops.len() > 400 {
+                        viol(ctx, "WeightedTreeIndex", W::NAME, &sym, crate::streams::word_class(w), msg, json!({"kind": "tree_sample_long", "ops": ops.len()}));
+                        seen_roots.insert(("_long".to_string(), "_"));
+                    }
                 }
             }
         }
@@ -1402,7 +1490,9 @@ fn c10_f32_exhaustive(ctx: &Ctx) {
                     rng.force(0, w);
                     rng.begin_call();
                     if let Some((sym, msg)) = tree_sample_check::<f32>(&tree, &model, &mut rng) {
-                        viol(ctx, "WeightedTreeIndex", "f32", &sym, crate::streams::word_class(w), msg, json!({"kind": "tree_sample", "tree_sample": TreeSampleCase { wt: "f32".into(), ops: ops.clone(), pos: 0, word: w, seed }}));
+                        if c[n] < 2 {
+                            viol(ctx, "WeightedTreeIndex", "f32", &sym, crate::streams::word_class(w), msg, json!({"kind": "tree_sample", "tree_sample": TreeSampleCase { wt: "f32".into(), ops: ops.clone(), pos: 0, word: w, seed }}));
+                        }
                         c[n] += 1;
                     } else if let Ok(Ok(idx)) = catch(|| {
                         let mut rng2 = base.clone();
